@@ -122,6 +122,16 @@ def _compare(objs, exp, where, key_n=1):
 
 
 def run_case(case):
+    try:
+        return _run_case(case)
+    except Exception as ex:
+        # values and origins are read through the public accessors of the returned objects: an exception there (e.g.
+        # get_attr_origin refusing a key the object holds) is an observation, not a failure of the machinery
+        return 'sheet %s stop_on=%r ladder=%s: reading the attributes / origins of the returned objects raised %s: %s' % (
+            case['sheet'], case['stopOn'], case['ladder'], type(ex).__name__, str(ex)[:120])
+
+
+def _run_case(case):
     e = _env()
     x = e['x']
     key_n = case.get('keyN', 1)
